@@ -1,0 +1,21 @@
+//go:build verif
+
+package types
+
+// Contracts checked by /verif/govc (contract-based deductive verification).
+// Comment-only: with the `verif` tag off this file is not even parsed.
+
+//@ func Hash
+//@   trusted SHA3-256 digest: 32 fresh bytes (cryptographic library)
+//@   pure_fn
+//@   ensures result != nil && len(result) == 32
+
+// index = (first 8 bytes of hash as big-endian integer) mod max, for max > 0
+//@ func PseudorandomSelection
+//@   props C31,C33
+//@   panics_unless max.i != nil && cap(hash) >= 8 && bigv[max.i] != 0
+//@   modifies bigv
+//@   ensures index.i != nil && fresh(index.i)
+//@   ensures old(bigv[max.i]) > 0 ==> 0 <= bigv[index.i] && bigv[index.i] < old(bigv[max.i])
+//@   ensures bigv[index.i] == beval(bytes(hash[:8])) % old(bigv[max.i])
+//@   ensures forall p int :: p <= old(ref(max.i)) ==> bigv[p] == old(bigv[p])
